@@ -15,7 +15,7 @@ def check(tier):
     n += lexcommon.lex_replay(rep, pvh, ["MC_PongoLexer_code_q.cfg"], KINDS)
     import filtercommon
     filtercommon.filter_replay(rep, pvh, ["spaceless"], None if q else {"spaceless": 7})
-    rep.cov["traces_validated_against_impl"] = 0
+    rep.cov["traces_validated_against_impl"] += n
     rep.assumptions += ["comments and verbatim blocks are kept away from trimming constructs (the statement does not settle those placements)"]
     return rep.finish(
         rule="every well-formed fragment document up to the bound (whitespace runs of space/tab/CR/LF mixes, text, {{ v }}, block tags, "
